@@ -18,7 +18,9 @@ Definition C20_in_scope (o : op) : bool :=
 (* PROPERTY (sequential clause), strongest true form: after ANY history of in-scope calls (puts with
    conditions/tags/metadata/class, appends, copies, deletes, bulk deletes, tagging changes, storage-class
    transitions, versioning changes (Enabled / Suspended), deletes / bulk deletes / tagging / transitions that
-   name a version id (e.g. removing the CURRENT version by its id, which promotes another one), multipart
+   name a version id (e.g. removing the CURRENT version by its id, which promotes another one), puts and appends
+   that the inner storage rejects after or while consuming the body (precondition, checksum mismatch, reader
+   error, missing bucket), reads by version id ("null" included) and ranged reads, multipart
    create/part/complete/abort, heads and gets, in both the unversioned and the versioned bucket), every
    HeadObject and every GetObject through the middleware — with any If-Match / If-None-Match — returns
    exactly what the inner storage returns at that moment (same object record incl. every attribute,
@@ -43,6 +45,64 @@ Theorem C20_versioned_reads_bypass : forall s k vr im inm, bucket_ok (fst k) = t
     (s, match inner_get_v (s_in s) k vr im inm with GObj o b => RGet o b | GErr e => RStatus e end).
 Proof. intros s k vr im inm H. cbn [step]. rewrite H. split; reflexivity. Qed.
 Print Assumptions C20_versioned_reads_bypass.
+
+(* ranged reads, with or without a version id, are answered by the inner storage in every state *)
+Theorem C20_ranged_reads_bypass : forall s k vr rs re, bucket_ok (fst k) = true ->
+  step s (OGetR k vr rs re) =
+    (s, match inner_get_range (s_in s) k vr rs re with GRange o st ln => RRange o st ln | GRErr e => RStatus e end).
+Proof. intros s k vr rs re H. cbn [step]. rewrite H. reflexivity. Qed.
+Print Assumptions C20_ranged_reads_bypass.
+
+(* REJECTED WRITES.  A write call (put, put with a bad checksum / failing reader, append, copy,
+   multipart completion) that returns an error leaves the inner storage exactly as it was ... *)
+Definition C20_is_write (o : op) : bool :=
+  match o with
+  | OPut _ _ _ _ _ _ _ | OPutBad _ _ _ | OAppend _ _ _ | OAppendBad _ _ _
+  | OCopy _ _ _ _ _ _ _ _ | OMComplete _ => true
+  | _ => false
+  end.
+Theorem C20_rejected_write_store_unchanged : forall s o e,
+  C20_is_write o = true -> snd (step s o) = RStatus e -> e <> Ok -> s_in (fst (step s o)) = s_in s.
+Proof. exact rejected_write_store_unchanged. Qed.
+Print Assumptions C20_rejected_write_store_unchanged.
+
+(* ... and, after any in-scope history (so with any head / body entries warm), every HeadObject and
+   GetObject through the middleware after the rejected write returns what the inner storage held
+   BEFORE the call: the still-stored object, never the rejected bytes nor a head/body mix *)
+Theorem C20_rejected_write_shows_stored : forall ops o e,
+  forallb C20_in_scope ops = true -> C20_is_write o = true ->
+  let s := fst (run st0 ops) in
+  snd (step s o) = RStatus e -> e <> Ok ->
+  let s' := fst (step s o) in
+  forall k im inm, bucket_ok (fst k) = true ->
+  snd (step s' (OHead k im inm)) =
+    match inner_head (s_in s) k im inm with RObj o => RHead o | RErr e => RStatus e end /\
+  snd (step s' (OGet k im inm)) =
+    match inner_get (s_in s) k im inm with GObj o b => RGet o b | GErr e => RStatus e end.
+Proof. exact rejected_write_shows_stored. Qed.
+Print Assumptions C20_rejected_write_shows_stored.
+
+(* witnesses: a warm key, then four rejected puts (create-only, If-Match mismatch, bad digest, reader
+   error) — all reads keep showing content 3; and a null version that is not current (written while
+   unversioned, then Enabled + newer put): reads by "null" return it without disturbing the key-only entry *)
+Example C20_ex_rejected :
+  map show_res (snd (run st0
+    [OPut (0, 0) 3 1 1 1 0 PNone; OGet (0, 0) CNone CNone;
+     OPut (0, 0) 4 0 0 0 0 PIfNoneStar; OGet (0, 0) CNone CNone;
+     OPut (0, 0) 4 0 0 0 0 (PIfMatch (CTag (ES 4))); OHead (0, 0) CNone CNone;
+     OPutBad (0, 0) 4 2; OGet (0, 0) CNone CNone; OPutBad (0, 0) 4 4; OGet (0, 0) CNone CNone;
+     OGetR (0, 0) VRNone (Some 1) (Some 4); OPut (2, 0) 4 0 0 0 0 PNone])) =
+  [B"ok"; B"ok=1:1:1:0:s:3"; B"PreconditionFailed"; B"ok=1:1:1:0:s:3"; B"PreconditionFailed"; B"ok=1:1:1:0:s";
+   B"BadDigest"; B"ok=1:1:1:0:s:3"; B"ReadErr"; B"ok=1:1:1:0:s:3"; B"ok=1:1:1:0:s:r1.3"; B"NoSuchBucket"].
+Proof. vm_compute. reflexivity. Qed.
+Example C20_ex_null_not_current :
+  map show_res (snd (run st0
+    [OPut (0, 0) 3 0 0 0 0 PNone; OGet (0, 0) CNone CNone; OVers 0 VEnabled; OPut (0, 0) 4 0 0 0 0 PNone;
+     OGet (0, 0) CNone CNone; OHeadV (0, 0) VRNull CNone CNone; OGetV (0, 0) VRNull CNone CNone;
+     OGetR (0, 0) VRNull (Some 0) (Some 2); OGet (0, 0) CNone CNone; OHead (0, 0) CNone CNone])) =
+  [B"ok"; B"ok=0:0:0:0:s:3"; B"ok"; B"ok"; B"ok=0:0:0:0:s:4"; B"ok=0:0:0:0:s"; B"ok=0:0:0:0:s:3";
+   B"ok=0:0:0:0:s:r0.2"; B"ok=0:0:0:0:s:4"; B"ok=0:0:0:0:s"].
+Proof. vm_compute. reflexivity. Qed.
 
 (* the scenario of the follow-up round: two versions, the current one cached by a GET, then deleted
    BY ITS VERSION ID: the previous version becomes current and the middleware answers with it *)
